@@ -157,6 +157,50 @@ CHECKS = {
         design="DESIGN.md §4 C18",
         note="Trusted: filesystem; Python-scalar fields compared at float32 precision. 6 mutants caught, 2 equivalent mutants discarded (equinox re-adds the suffix itself).",
     ),
+    "C11": dict(
+        technique="metamorphic property-based testing: repeated / re-keyed / observed learn() runs compared bit-for-bit (seeded configurations in a process pool)",
+        text="For PPO, A2C, REINFORCE, DQN and SAC on CartPole / Pendulum / generated finite MDPs with seeded hyper-parameters and keys: "
+        "learn() twice with identical inputs must give bit-identical array leaves, another key must give different ones, the input "
+        "policy is compared with a host copy taken beforehand, and every observer set (None vs [], a no-op callback, ProgressBar, "
+        "LoggingCallback with a recording back end, LoggingCallback with Console+TensorBoard, a list of two) must reproduce the "
+        "unobserved run bit-for-bit.",
+        design="DESIGN.md §4 C11",
+        note="Trusted: bit-identity within one process/XLA build is what the statement needs. Each (algorithm, env, config, observer structure) costs a learn() compile, so the number of configurations is small (10 quick / 40 thorough). 4 mutants caught, 1 equivalent discarded.",
+    ),
+    "C12": dict(
+        technique="metamorphic property-based testing: eager = jit = vmap per environment function; N-env collection = N single-env collections; perturbation non-interference through iteration()",
+        text="(a) initial/transition/observation/reward/terminal/truncate of the built-in environments (classic control with wrapper "
+        "stacks, MuJoCo; G1 in the thorough tier) evaluated eagerly, under jit and vmapped then indexed, on states reached by "
+        "sampled action prefixes; (b1) the exact filter_vmap(collect_rollout) call of iteration() vs per-environment collections on "
+        "generated finite MDPs; (b2) through the real iteration() with the buffer captured from ctx.locals: replacing only env j's "
+        "start state must leave every field of every other environment's slice bit-identical (incl. advantages, returns, carried "
+        "state), on-policy and for DQN's per-env replay buffers.",
+        design="DESIGN.md §4 C12",
+        note="Trusted: float32 reassociation tolerance (1e-5/1e-6 classic, 2e-4/2e-5 MuJoCo single transitions); single transitions only, no chaotic multi-step comparison.",
+    ),
+    "C17": dict(
+        technique="differential property-based testing against the installed Gymnasium reference environments (classic control in x64; MuJoCo v5 with physics substituted and single-step physics vs C MuJoCo)",
+        text="Classic control: boundary-biased states x all actions - lerax.dynamics vs the reference's own vector field, lerax.clip vs the "
+        "reference's limit rules (validated against Gymnasium's step in the same run), reward/termination of the very transition "
+        "Gymnasium produced, CartPole(Euler) trajectories up to 200 steps (1e-9), initial-state ranges over 4096 keys. MuJoCo (11 envs, "
+        "process pool): model/frame_skip/dt/control-range identity, reset observation vs _get_obs() after set_state, Gymnasium's own "
+        "step() judging lerax's successor state (observation, reward, every shared reward component, termination; first step vs later "
+        "steps; constructor options in the thorough tier), single control step of MJX vs C MuJoCo incl. presence of external contact "
+        "forces.",
+        design="DESIGN.md §4 C17",
+        note="Trusted: Gymnasium 1.3 and MuJoCo C as the reference; MJX-vs-C solver differences are tolerated by a floor fraction (layer mj_physics). 18 mutants (9 fix reversals).",
+    ),
+    "C20": dict(
+        technique="property-based testing (Hypothesis) of the pure gait helpers incl. 5000-step histories; range/identity oracles over vmapped initial() and rollouts of the three G1 tasks (process pool)",
+        text="Gait helpers on generated phases (incl. +-pi and +-1 ulp), frequencies 0-4 Hz, dt in {0.02, 0.04}: range, increment "
+        "2*pi*f*dt (mod 2*pi), half-cycle offset, over up to 5000 steps; desired foot height range, zero at -pi, peak at 0, monotone "
+        "halves, continuity. Environments: vmapped initial() over 48 (quick) / 1024 (thorough) keys per task and range configuration: "
+        "every randomised model field inside its configured range, every other model leaf bit-identical to the nominal model, command "
+        "and gait frequency ranges (exact zero command for standing tasks; documented zero-command episodes allowed for locomotion), "
+        "mjx.forward reproduces stored body/site poses; rollouts with random in-space actions: phase coherence per control step.",
+        design="DESIGN.md §4 C20",
+        note="Trusted: float32 slack 1e-5..1e-6 on range ends. Compile-bound: 1 (quick) / 3 (thorough) range configurations per task. 10 mutants caught, 1 equivalent discarded.",
+    ),
 }
 
 PENDING_REASON = "check not built yet in this round (planned, see DESIGN.md §8); not claimed until it is quiet on the unchanged tree"
